@@ -194,7 +194,7 @@ static Rsp c04_send(Buf *b, uint32_t cc, int nh, const uint32_t *h, const uint8_
     }
     b_bytes(b, pm.p, pm.n); b_free(&pm);
     Rsp r = run(b);
-    tr_begin("auth what=%s corrupt=%d sh=%u rc=%u", what, corrupt, ns && as[0].s ? as[0].s->h : 0, r.rc); trhex("req", b->p, b->n); trhex("rsp", r.p, r.len); tr_end();
+    tr_begin("auth what=%s corrupt=%d sh=%u rc=%u loc=%d pp=%d", what, corrupt, ns && as[0].s ? as[0].s->h : 0, r.rc, g_locality, g_pp); trhex("req", b->p, b->n); trhex("rsp", r.p, r.len); tr_end();
     if (r.rc == 0 && r.tag == ST_SESSIONS) {
         uint32_t psz = g32(r.p + 10); size_t off = 14 + psz;
         for (int i = 0; i < send_ns && off + 2 <= r.len; i++) {
@@ -265,7 +265,7 @@ static uint32_t c04_polpcr(Buf *b, HSess *s, int given) {
     tr_begin("pol sh=%u cc=%x code=0 rc=%u", s->h, CC_PolicyPCR, r.rc); trhex("sel", C04_PCRSEL, 10); trhex("given", dg, gl); tr_end();
     return r.rc;
 }
-enum { BR_W, BR_R, BR_C, BR_D, BR_P, BR_N };
+enum { BR_W, BR_R, BR_C, BR_D, BR_P, BR_L, BR_X, BR_N };   /* BR_L: PolicyLocality(locality 1), BR_X: PolicyPhysicalPresence — both authorize NV_Read */
 typedef struct { uint32_t idx; char auth[8]; uint8_t name[34]; int nl; uint8_t d[BR_N][32]; uint8_t P[32]; uint8_t data[16]; int exists; } PolNv;
 
 static void c04_nvname(Buf *b, PolNv *n) {
@@ -291,6 +291,13 @@ static void c04_poldefine(Buf *b, PolNv *n, HSess *ps) {
     if (r2.rc != 0) { n->exists = 0; return; }
     c04_nvname(b, n);
 }
+static void c04_pol_loc(Buf *b, HSess *s, uint8_t loc) {
+    cmd_begin(b, ST_NO_SESSIONS, 0x16F); b_u32(b, s->h); b_u8(b, loc); Rsp r = run(b);
+    tr("pol sh=%u cc=16f code=0 rc=%u loc=%u", s->h, r.rc, loc);
+}
+static void c04_pol_pp(Buf *b, HSess *s) {
+    cmd_begin(b, ST_NO_SESSIONS, 0x187); b_u32(b, s->h); Rsp r = run(b); tr("pol sh=%u cc=187 code=0 rc=%u", s->h, r.rc);
+}
 /* build branch `br` of the policy on session s; `dev` deviates from the correct sequence */
 static void c04_branch(Buf *b, HSess *s, PolNv *n, int br, int dev) {
     c04_pol(b, s, CC_PolicyRestart, 0, NULL, 0);
@@ -300,6 +307,12 @@ static void c04_branch(Buf *b, HSess *s, PolNv *n, int br, int dev) {
     case BR_W: c04_pol(b, s, CC_PolicyCommandCode, code, NULL, 0); if (dev != 2) c04_pol(b, s, dev == 5 ? CC_PolicyPassword : CC_PolicyAuthValue, 0, NULL, 0); break;
     case BR_R: c04_pol(b, s, dev == 5 ? CC_PolicyAuthValue : CC_PolicyPassword, 0, NULL, 0); break;
     case BR_C: c04_pol(b, s, CC_PolicyCommandCode, code, NULL, 0); break;
+    case BR_L: /* dev 1: another locality in the policy (the digest is not the branch's); 2: narrowed by a second PolicyLocality that
+                  leaves nothing (refused) ; 5: a second PolicyLocality that keeps locality 1 but changes the digest */
+        c04_pol_loc(b, s, dev == 1 ? 0x04 : 0x02);
+        if (dev == 2) c04_pol_loc(b, s, 0x04); else if (dev == 5) c04_pol_loc(b, s, 0x03);
+        break;
+    case BR_X: if (dev != 2) c04_pol_pp(b, s); if (dev == 5) c04_pol_pp(b, s); break;
     case BR_P: /* dev 1: a PCR changed before PolicyPCR; 2: wrong digest supplied; 5: PCR 20 changes after PolicyPCR (counter moves);
                   6 (generic, below) adds a command code; 4: PCR 16 changes after PolicyPCR (counter does not move) */
         c04_pcr_clean(b);
@@ -365,6 +378,8 @@ static void c04_policy_rounds(Buf *b, int rounds) {
         else if (br == BR_R) c04_pol(b, &t, CC_PolicyPassword, 0, NULL, 0);
         else if (br == BR_C) c04_pol(b, &t, CC_PolicyCommandCode, CC_NV_ChangeAuth, NULL, 0);
         else if (br == BR_P) { c04_pcr_clean(b); c04_polpcr(b, &t, 0); }
+        else if (br == BR_L) c04_pol_loc(b, &t, 0x02);
+        else if (br == BR_X) c04_pol_pp(b, &t);
         else { c04_pol(b, &t, CC_PolicyAuthValue, 0, NULL, 0); c04_pol(b, &t, CC_PolicyCommandCode, CC_NV_UndefineSpaceSpecial, NULL, 0); }
         if (c04_getdigest(b, &t, n.d[br]) != 0) return;
     }
@@ -384,6 +399,7 @@ static void c04_policy_rounds(Buf *b, int rounds) {
     if (!n.exists) return;
     HSess hs; int have_hs = c04_start(b, &hs, RH_NULL, "", 0) == 0;
     for (int i = 0; i < rounds; i++) {
+        g_locality = 0; g_pp = 0;
         if (!n.exists) { c04_poldefine(b, &n, &ps); if (!n.exists) return; }
         if (have_platpol && chance(12)) {   /* a hierarchy authorized by its policy (SetPrimaryPolicy), by a wrong policy, by its empty password */
             int dev = chance(60) ? 0 : 1 + rnd(3);
@@ -394,10 +410,10 @@ static void c04_policy_rounds(Buf *b, int rounds) {
             int corrupt1 = chance(75) ? K_NONE : 1 + rnd(K_NCOUNT - 1); if (corrupt1 == K_AUTHVAL || corrupt1 == K_HMAC || corrupt1 == K_STALE_NONCE) corrupt1 = K_NONE;   /* nothing keyed to corrupt */
             c04_send(b, CC_ClockRateAdjust, 1, hh1, nm1, nl1, p1, 1, 1, as1, corrupt1, "pol-hierarchy");
             continue; }
-        int br = chance(8) ? BR_D : chance(25) ? BR_P : rnd(3);
+        int br = chance(8) ? BR_D : chance(25) ? BR_P : chance(25) ? (chance(50) ? BR_L : BR_X) : rnd(3);
         int dev = chance(55) ? 0 : 1 + rnd(6);
         int corrupt = chance(70) ? K_NONE : 1 + rnd(K_NCOUNT - 1);
-        int usecmd = chance(85) ? (br == BR_P ? BR_R : br) : rnd(4);               /* sometimes the session built for one command is used for another */
+        int usecmd = chance(85) ? (br == BR_P || br == BR_L || br == BR_X ? BR_R : br) : rnd(4);               /* sometimes the session built for one command is used for another */
         c04_branch(b, &ps, &n, br, dev);
         int mode = ps.needPw ? M_PW_FIELD : ps.needAuth ? M_HMAC_AUTH : M_EMPTY;
         if (chance(6)) mode = rnd(5) == M_RS_PW ? M_EMPTY : rnd(3);   /* the wrong kind of proof for the session's state */
@@ -405,6 +421,8 @@ static void c04_policy_rounds(Buf *b, int rounds) {
         const uint8_t *names[2] = { n.name, platname }; int nl[2] = { n.nl, 4 }; uint32_t hh[2] = { n.idx, n.idx };
         if (chance(8) && have_hs) { as[0].s = &hs; as[0].mode = M_HMAC_AUTH; }          /* HMAC session where a policy may be required */
         else if (chance(5)) { as[0].s = NULL; as[0].mode = M_RS_PW; }                   /* password session */
+        if (br == BR_L) g_locality = chance(50) ? 1 : rnd(5);       /* the command arrives at the admitted locality, or at another one */
+        if (br == BR_X) g_pp = chance(60);                           /* physical presence asserted, or not */
         switch (usecmd) {
         case BR_W: { uint8_t p[8]; p[0] = 0; p[1] = 4; for (int q = 0; q < 4; q++) p[2 + q] = rnd(256); p[6] = 0; p[7] = 4 * rnd(4);
             names[1] = n.name; nl[1] = n.nl;
@@ -431,6 +449,7 @@ static void c04_policy_rounds(Buf *b, int rounds) {
             break; }
         }
     }
+    g_locality = 0; g_pp = 0;
 }
 
 static void scen_c04(int histories, int rounds) {
